@@ -532,20 +532,20 @@ class _HCRS:
         _Heap.free.append(self.addr)
 
     @classmethod
-    def from_user_input(cls, s):
-        return cls(str(s).upper())
+    def from_user_input(cls, value):  # pyproj's own parameter name
+        return cls(str(value).upper())
 
     @classmethod
-    def from_epsg(cls, n):
-        return cls(f"EPSG:{n}")
+    def from_epsg(cls, code):  # pyproj's own parameter name
+        return cls(f"EPSG:{code}")
 
     @classmethod
-    def from_dict(cls, d):
-        return cls(str(d["spec"]).upper())
+    def from_dict(cls, proj_dict):  # pyproj's own parameter names, here and below
+        return cls(str(proj_dict["spec"]).upper())
 
     @classmethod
-    def from_wkt(cls, w):
-        return cls(str(w).upper())
+    def from_wkt(cls, in_wkt_string):
+        return cls(str(in_wkt_string).upper())
 
     def to_wkt(self, *a, **kw):
         return self.spec
@@ -559,7 +559,7 @@ class _HCRS:
     def __hash__(self):
         return hash(self.spec)
 
-    def to_epsg(self):
+    def to_epsg(self, min_confidence=70):
         return int(self.spec.split(":")[1])
 
 
@@ -568,8 +568,8 @@ class _HTransformer:
         self.src_spec, self.dst_spec, self.always_xy = src.spec, dst.spec, always_xy
 
     @classmethod
-    def from_crs(cls, a, b, always_xy=False):
-        return cls(a, b, always_xy)
+    def from_crs(cls, crs_from, crs_to, always_xy=False, **kw):  # pyproj's own parameter names
+        return cls(crs_from, crs_to, always_xy)
 
 
 class _WktOnly:
@@ -690,12 +690,13 @@ class _KProj:
         return 30000 + self.defn
 
     @classmethod
-    def from_user_input(cls, s):
+    def from_user_input(cls, value):  # pyproj's own parameter name
+        s = value
         return cls(s.defn, f"EPSG:{30000 + s.defn}" if s.kind == "epsg" else f"<wkt {s.defn}>")
 
     @classmethod
-    def from_epsg(cls, n):
-        return cls(n - 30000, f"EPSG:{n}")
+    def from_epsg(cls, code):  # pyproj's own parameter name
+        return cls(code - 30000, f"EPSG:{code}")
 
 
 class _KStr(str):
